@@ -76,7 +76,8 @@ func init() {
 				mu.Lock()
 				ue := ues[g]
 				if ue == nil {
-					ue = tglib.NewRanUeContext(fmt.Sprintf("imsi-20893%010d", g), int64(g), uint8(1+g%2), uint8(1+(g/2)%2))
+					// RAN-UE-NGAP-IDs that agree in their low octet (7, 263, 519, ...): distinct UEs all the same
+					ue = tglib.NewRanUeContext(fmt.Sprintf("imsi-20893%010d", g), int64(7+256*g), uint8(1+g%2), uint8(1+(g/2)%2))
 					for j := range ue.KnasEnc {
 						ue.KnasEnc[j] = byte(g + j)
 						ue.KnasInt[j] = byte(g*3 + j)
